@@ -111,7 +111,7 @@ func runC12(c *fw.Ctx) {
 		maxN = 4
 	}
 	names := []string{"ta", "tb", "tc", "td"}
-	hosts := []string{"none", "request", "response", "resp-headers", "query", "nested", "nested-base-heir-first", "nested-base-heir-last"}
+	hosts := c12Hosts()
 	for n := 2; n <= maxN; n++ {
 		// base list options for type i: ordered lists of 0..2 distinct other types
 		var baseOpts [][][]int
@@ -170,28 +170,16 @@ func runC12(c *fw.Ctx) {
 					}
 					// the extra inheriting schema takes the last type as its base
 					hb := objBody([]string{"@" + ts[n-1].name}, []string{"hostown"}, 9)
-					switch host {
-					case "request":
-						nodes = append(nodes, doc.N("POST", "/h").WithParen().WithKids(doc.N("Request").WithBody(hb), doc.N("200", "any")))
-					case "response":
-						nodes = append(nodes, doc.N("GET", "/h").WithParen().WithKids(doc.N("200").WithBody(hb)))
-					case "resp-headers":
-						nodes = append(nodes, doc.N("GET", "/h").WithParen().WithKids(doc.N("200").WithKids(doc.N("Headers").WithBody(hb), doc.N("Body", "any"))))
-					case "query":
-						nodes = append(nodes, doc.N("GET", "/h").WithParen().WithKids(doc.N("Query").WithBody(hb), doc.N("200", "any")))
-					case "nested-base-heir-first", "nested-base-heir-last":
-						holder := doc.N("TYPE", "@holder").WithBody("{\n  \"in\": " + strings.ReplaceAll(hb, "\n", "\n  ") + "\n}")
-						heir := doc.N("TYPE", "@heir").WithBody("{ // {allOf: \"@holder\"}\n  \"z\": 1\n}")
-						if host == "nested-base-heir-first" {
-							nodes = append([]*doc.Node{nodes[0], heir, holder}, nodes[1:]...)
-						} else {
-							nodes = append(append([]*doc.Node{nodes[0], holder}, nodes[1:]...), heir)
+					var hostKeys []string
+					if lastProps, ok := refProps(ts, n-1, map[int]bool{}); ok {
+						for _, p := range lastProps {
+							hostKeys = append(hostKeys, p.key)
 						}
-					case "nested":
-						nodes = append([]*doc.Node{nodes[0], doc.N("TYPE", "@holder").WithBody("{\n  \"in\": " + strings.ReplaceAll(hb, "\n", "\n  ") + "\n}")}, nodes[1:]...)
 					}
+					hostKeys = append(hostKeys, "hostown")
+					nodes = host.build(nodes, hb, hostKeys)
 					text := doc.Text(nodes)
-					c.Describe(fmt.Sprintf("n=%d bases=%v own=%v order=%v host=%s", n, idx, pat, order, host))
+					c.Describe(fmt.Sprintf("n=%d bases=%v own=%v order=%v host=%s", n, idx, pat, order, host.name))
 					o := drv.RunMem("root.jst", text, opt)
 					if o.Crashed() {
 						c.Count("skipped_crash", 1)
@@ -220,7 +208,7 @@ func runC12(c *fw.Ctx) {
 							bad = fmt.Sprintf("type @%s has properties %v, reference %v", ts[i].name, got, want)
 						}
 					}
-					if bad == "" && host != "none" {
+					if bad == "" && host.name != "none" {
 						last, ok := refProps(ts, n-1, map[int]bool{})
 						var want []inhProp
 						if ok {
@@ -229,37 +217,15 @@ func runC12(c *fw.Ctx) {
 							}
 							want = append(want, inhProp{"hostown", ""})
 						}
-						var content *jsonx.V
-						in := cat.Get("interactions")
-						switch host {
-						case "request":
-							content = in.Vals[0].Path("request", "body", "schema", "content")
-						case "response":
-							content = in.Vals[0].Get("responses").A[0].Path("body", "schema", "content")
-						case "resp-headers":
-							content = in.Vals[0].Get("responses").A[0].Path("headers", "schema", "content")
-						case "query":
-							content = in.Vals[0].Path("query", "schema", "content")
-						case "nested-base-heir-first", "nested-base-heir-last":
-							// the heir's inherited property "in" must carry the expanded nested object
-							h := cat.Path("userTypes", "@heir", "schema", "content", "children")
-							if h != nil && len(h.A) == 2 && h.A[0].Get("key").Str() == "in" && h.A[0].Get("inheritedFrom").Str() == "@holder" {
-								content = h.A[0]
-							}
-						case "nested":
-							h := cat.Path("userTypes", "@holder", "schema", "content", "children")
-							if h != nil && len(h.A) == 1 {
-								content = h.A[0]
-							}
-						}
+						content := host.locate(cat)
 						if content == nil {
 							bad = "host schema not found in the catalog"
 						} else if got := childrenOf(content); !propsEqual(got, want) {
-							bad = fmt.Sprintf("the %s schema inheriting from @%s has properties %v, reference %v", host, ts[n-1].name, got, want)
+							bad = fmt.Sprintf("the %s schema inheriting from @%s has properties %v, reference %v", host.name, ts[n-1].name, got, want)
 						}
 					}
 					if bad != "" {
-						c.Violate("inheritance", "C12:"+host+":"+firstWordsN(bad, 3), fmt.Sprintf("bases=%v own=%v order=%v host=%s: %s", idx, pat, order, host, bad), map[string]interface{}{"text": text})
+						c.Violate("inheritance", "C12:"+host.name+":"+firstWordsN(bad, 3), fmt.Sprintf("bases=%v own=%v order=%v host=%s: %s", idx, pat, order, host.name, bad), map[string]interface{}{"text": text})
 					} else {
 						c.Sample("graph n="+fmt.Sprint(n), 2, map[string]interface{}{"text": text})
 					}
@@ -295,6 +261,11 @@ func runC12(c *fw.Ctx) {
 		{"override-declared-first", "JSIGHT 0.3\nTYPE @t\n  { // {allOf: \"@b\"}\n    \"k\": 2\n  }\nTYPE @b\n  {\n    \"k\": 1\n  }\n"},
 		{"override-through-chain", "JSIGHT 0.3\nTYPE @t\n  { // {allOf: \"@m\"}\n    \"k\": 2\n  }\nTYPE @m\n  { // {allOf: \"@b\"}\n    \"m\": 1\n  }\nTYPE @b\n  {\n    \"k\": 1\n  }\n"},
 		{"override-in-request", "JSIGHT 0.3\nTYPE @b\n  {\n    \"k\": 1\n  }\nPOST /x\n  Request\n    { // {allOf: \"@b\"}\n      \"k\": 2\n    }\n  200 any\n"},
+		{"override-in-rpc-params", "JSIGHT 0.3\nTYPE @b\n  {\n    \"k\": 1\n  }\nURL /r\n  Protocol json-rpc-2.0\n  Method m\n    Params\n      { // {allOf: \"@b\"}\n        \"k\": 2\n      }\n"},
+		{"override-in-rpc-result", "JSIGHT 0.3\nTYPE @b\n  {\n    \"k\": 1\n  }\nURL /r\n  Protocol json-rpc-2.0\n  Method m\n    Result\n      { // {allOf: \"@b\"}\n        \"k\": 2\n      }\n"},
+		{"override-in-query", "JSIGHT 0.3\nTYPE @b\n  {\n    \"k\": 1\n  }\nGET /x\n  Query\n    { // {allOf: \"@b\"}\n      \"k\": 2\n    }\n  200 any\n"},
+		{"override-in-second-response-headers", "JSIGHT 0.3\nTYPE @b\n  {\n    \"k\": 1\n  }\nGET /x\n  404 any\n  200\n    Headers\n      { // {allOf: \"@b\"}\n        \"k\": 2\n      }\n    Body any\n"},
+		{"undefined-base-in-rpc-params", "JSIGHT 0.3\nURL /r\n  Protocol json-rpc-2.0\n  Method m\n    Params\n      { // {allOf: \"@nope\"}\n        \"k\": 2\n      }\n"},
 		{"scalar-base", "JSIGHT 0.3\nTYPE @b\n  1\nTYPE @t\n  { // {allOf: \"@b\"}\n    \"k\": 2\n  }\n"},
 		{"array-base", "JSIGHT 0.3\nTYPE @b\n  [1]\nTYPE @t\n  { // {allOf: \"@b\"}\n    \"k\": 2\n  }\n"},
 		{"regex-base", "JSIGHT 0.3\nTYPE @b regex\n  /a/\nTYPE @t\n  { // {allOf: \"@b\"}\n    \"k\": 2\n  }\n"},
@@ -314,4 +285,158 @@ func runC12(c *fw.Ctx) {
 			c.Violate("bad-inheritance-accepted", "C12:neg:"+t.label, t.label+": "+o.Short(), map[string]interface{}{"text": t.text})
 		}
 	}
+}
+
+// c12host is a place where an additional schema inheriting from the last type is written, and
+// where its content is found in the catalog.
+type c12host struct {
+	name   string
+	build  func(nodes []*doc.Node, hb string, keys []string) []*doc.Node
+	locate func(cat *jsonx.V) *jsonx.V
+}
+
+// c12Hosts: every schema-bearing place (request body / headers, response body / headers, query,
+// path, JSON-RPC params / result, nested object of a type) x position of the response among its
+// siblings (1st, 2nd after a response without headers, 3rd) x position of the interaction among
+// filler interactions that lack / have the same features.
+func c12Hosts() []c12host {
+	indent := func(hb string) string { return strings.ReplaceAll(hb, "\n", "\n  ") }
+	out := []c12host{{name: "none", build: func(n []*doc.Node, _ string, _ []string) []*doc.Node { return n }}}
+	fillers := func(pos int) []*doc.Node {
+		var f []*doc.Node
+		if pos >= 1 {
+			f = append(f, doc.N("GET", "/f0").WithParen().WithKids(doc.N("200", "any")))
+		}
+		if pos >= 2 {
+			f = append(f, doc.N("POST", "/f1").WithParen().WithKids(
+				doc.N("Query").WithBody("{\n  \"q\": 1\n}"),
+				doc.N("Request").WithKids(doc.N("Headers").WithBody("{\n  \"H\": \"v\"\n}"), doc.N("Body").WithBody("{\n  \"b\": 1\n}")),
+				doc.N("200").WithKids(doc.N("Headers").WithBody("{\n  \"R\": \"v\"\n}"), doc.N("Body").WithBody("{\n  \"c\": 1\n}"))))
+		}
+		return f
+	}
+	respFillers := func(k int) []*doc.Node {
+		var f []*doc.Node
+		if k >= 1 {
+			f = append(f, doc.N("404", "any"))
+		}
+		if k >= 2 {
+			f = append(f, doc.N("500").WithParen().WithKids(doc.N("Headers").WithBody("{\n  \"E\": \"v\"\n}"), doc.N("Body", "any")))
+		}
+		return f
+	}
+	inter := func(cat *jsonx.V, pos int) *jsonx.V {
+		in := cat.Get("interactions")
+		if in == nil || len(in.Vals) <= pos {
+			return nil
+		}
+		return in.Vals[pos]
+	}
+	for pos := 0; pos <= 2; pos++ {
+		pos := pos
+		add := func(name string, kids func(hb string, keys []string) (path string, kids []*doc.Node), loc func(in *jsonx.V) *jsonx.V) {
+			out = append(out, c12host{name: fmt.Sprintf("%s@inter%d", name, pos),
+				build: func(nodes []*doc.Node, hb string, keys []string) []*doc.Node {
+					path, kk := kids(hb, keys)
+					nodes = append(nodes, fillers(pos)...)
+					return append(nodes, doc.N("POST", path).WithParen().WithKids(kk...))
+				},
+				locate: func(cat *jsonx.V) *jsonx.V {
+					in := inter(cat, pos)
+					if in == nil {
+						return nil
+					}
+					return loc(in)
+				}})
+		}
+		add("request", func(hb string, _ []string) (string, []*doc.Node) {
+			return "/h", []*doc.Node{doc.N("Request").WithBody(hb), doc.N("200", "any")}
+		}, func(in *jsonx.V) *jsonx.V { return in.Path("request", "body", "schema", "content") })
+		add("req-headers", func(hb string, _ []string) (string, []*doc.Node) {
+			return "/h", []*doc.Node{doc.N("Request").WithKids(doc.N("Headers").WithBody(hb), doc.N("Body", "any")), doc.N("200", "any")}
+		}, func(in *jsonx.V) *jsonx.V { return in.Path("request", "headers", "schema", "content") })
+		add("query", func(hb string, _ []string) (string, []*doc.Node) {
+			return "/h", []*doc.Node{doc.N("Query").WithBody(hb), doc.N("200", "any")}
+		}, func(in *jsonx.V) *jsonx.V { return in.Path("query", "schema", "content") })
+		add("path", func(hb string, keys []string) (string, []*doc.Node) {
+			p := "/h"
+			for _, k := range keys {
+				p += "/{" + k + "}"
+			}
+			return p, []*doc.Node{doc.N("Path").WithBody(hb), doc.N("200", "any")}
+		}, func(in *jsonx.V) *jsonx.V { return in.Path("pathVariables", "schema", "content") })
+		for k := 0; k <= 2; k++ {
+			k := k
+			add(fmt.Sprintf("response#%d", k), func(hb string, _ []string) (string, []*doc.Node) {
+				return "/h", append(respFillers(k), doc.N("200").WithBody(hb))
+			}, func(in *jsonx.V) *jsonx.V {
+				r := in.Get("responses")
+				if r == nil || len(r.A) <= k {
+					return nil
+				}
+				return r.A[k].Path("body", "schema", "content")
+			})
+			add(fmt.Sprintf("resp-headers#%d", k), func(hb string, _ []string) (string, []*doc.Node) {
+				return "/h", append(respFillers(k), doc.N("201").WithKids(doc.N("Headers").WithBody(hb), doc.N("Body", "any")))
+			}, func(in *jsonx.V) *jsonx.V {
+				r := in.Get("responses")
+				if r == nil || len(r.A) <= k {
+					return nil
+				}
+				return r.A[k].Path("headers", "schema", "content")
+			})
+		}
+		// JSON-RPC: the focus method is the (pos+1)-th method of the URL block
+		for _, which := range []string{"params", "result"} {
+			which := which
+			out = append(out, c12host{name: fmt.Sprintf("rpc-%s@method%d", which, pos),
+				build: func(nodes []*doc.Node, hb string, _ []string) []*doc.Node {
+					u := doc.N("URL", "/r").WithParen().WithKids(doc.N("Protocol", "json-rpc-2.0"))
+					if pos >= 1 {
+						u.WithKids(doc.N("Method", "f0"))
+					}
+					if pos >= 2 {
+						u.WithKids(doc.N("Method", "f1").WithParen().WithKids(doc.N("Params").WithBody("{\n  \"p\": 1\n}"), doc.N("Result").WithBody("{\n  \"r\": 1\n}")))
+					}
+					kw := "Params"
+					if which == "result" {
+						kw = "Result"
+					}
+					u.WithKids(doc.N("Method", "m").WithParen().WithKids(doc.N(kw).WithBody(hb)))
+					return append(nodes, u)
+				},
+				locate: func(cat *jsonx.V) *jsonx.V {
+					in := inter(cat, pos)
+					if in == nil {
+						return nil
+					}
+					return in.Path(which, "schema", "content")
+				}})
+		}
+	}
+	// nested object property of a type; the holder before all types, or itself inherited from
+	nestedChild := func(cat *jsonx.V, typ string, nkids int, from string) *jsonx.V {
+		h := cat.Path("userTypes", typ, "schema", "content", "children")
+		if h != nil && len(h.A) == nkids && h.A[0].Get("key").Str() == "in" && h.A[0].Get("inheritedFrom").Str() == from {
+			return h.A[0]
+		}
+		return nil
+	}
+	holder := func(hb string) *doc.Node { return doc.N("TYPE", "@holder").WithBody("{\n  \"in\": " + indent(hb) + "\n}") }
+	heir := func() *doc.Node { return doc.N("TYPE", "@heir").WithBody("{ // {allOf: \"@holder\"}\n  \"z\": 1\n}") }
+	out = append(out,
+		c12host{name: "nested", build: func(nodes []*doc.Node, hb string, _ []string) []*doc.Node {
+			return append([]*doc.Node{nodes[0], holder(hb)}, nodes[1:]...)
+		}, locate: func(cat *jsonx.V) *jsonx.V { return nestedChild(cat, "@holder", 1, "") }},
+		c12host{name: "nested-last", build: func(nodes []*doc.Node, hb string, _ []string) []*doc.Node {
+			return append(nodes, holder(hb))
+		}, locate: func(cat *jsonx.V) *jsonx.V { return nestedChild(cat, "@holder", 1, "") }},
+		c12host{name: "nested-base-heir-first", build: func(nodes []*doc.Node, hb string, _ []string) []*doc.Node {
+			return append([]*doc.Node{nodes[0], heir(), holder(hb)}, nodes[1:]...)
+		}, locate: func(cat *jsonx.V) *jsonx.V { return nestedChild(cat, "@heir", 2, "@holder") }},
+		c12host{name: "nested-base-heir-last", build: func(nodes []*doc.Node, hb string, _ []string) []*doc.Node {
+			return append(append([]*doc.Node{nodes[0], holder(hb)}, nodes[1:]...), heir())
+		}, locate: func(cat *jsonx.V) *jsonx.V { return nestedChild(cat, "@heir", 2, "@holder") }},
+	)
+	return out
 }
